@@ -59,6 +59,32 @@ m("C15-getter-no-lock", "C15", "utils.py", "    with _cell_size_lock, _cell_size
   "    if True:\n        terminal_size = get_terminal_size()\n        if terminal_size == tuple(_cell_size_cache[:2]):")
 m("C15-swap-lock-around-everything", "C15", "__init__.py", "        utils._swap_win_size = True\n        with utils._cell_size_lock:\n            utils._cell_size_cache[:] = (0,) * 4\n",
   "        with utils._cell_size_lock:\n            utils._swap_win_size = True\n            utils._cell_size_cache[:] = (0,) * 4\n", expect="held")
+# ---- round-4 seeded changes, kept as mutants
+m("C20-deleter-hasattr", "C20", "image/iterm2.py", "    @read_from_file.deleter\n    def read_from_file(self) -> None:\n        try:\n            del self._read_from_file\n        except AttributeError:\n            pass\n",
+  "    @read_from_file.deleter\n    def read_from_file(self) -> None:\n        if hasattr(self, \"_read_from_file\"):\n            del self._read_from_file\n")
+m("C16-hash-skips-default-objects", "C16", "renderable/_types.py", "        return hash((self.render_cls, tuple(self._namespaces.values())))",
+  "        defaults = self.render_cls._ALL_DEFAULT_ARGS\n        return hash((self.render_cls, tuple([ns for cls, ns in self._namespaces.items() if ns is not defaults[cls]])))")
+m("C16-convert-no-args-shortcut", "C16", "renderable/_types.py", "            render_cls_args_mro = render_cls._ALL_DEFAULT_ARGS\n", "            render_cls_args_mro = render_cls._ALL_DEFAULT_ARGS\n            if not render_cls_args_mro:\n                return BASE_RENDER_ARGS\n")
+m("C04-fit-width-truncated", "C04", "image/common.py", "                width_px = round((height_px / _height_px) * _width_px)", "                width_px = int((height_px / _height_px) * _width_px)")
+m("C04-fit-height-truncated", "C04", "image/common.py", "                height_px = round((width_px / _width_px) * _height_px)", "                height_px = int((width_px / _width_px) * _height_px)")
+m("C07-new-api-flush-outside-try", "C07", "renderable/_renderable.py", "                    write(frame.render_output.replace(\"\\n\", cursor_to_next_render_line))\n                    flush()\n                except KeyboardInterrupt:\n                    self._handle_interrupted_draw_(render_data, render_args, output)\n                    return\n\n                write(cursor_to_render_top_left)",
+  "                    write(frame.render_output.replace(\"\\n\", cursor_to_next_render_line))\n                except KeyboardInterrupt:\n                    self._handle_interrupted_draw_(render_data, render_args, output)\n                    return\n\n                write(cursor_to_render_top_left)")
+m("C07-new-api-still-flush-outside-try", "C07", "renderable/_renderable.py", "                try:\n                    output.write(render)\n                    output.flush()\n                except KeyboardInterrupt:",
+  "                output.write(render)\n                try:\n                    output.flush()\n                except KeyboardInterrupt:")
+m("C18-spec-z-index-wins", "C18", "widget/_urwid.py", "            style_args[\"z_index\"] = self._ti_z_index = self._ti_get_z_index()", "            self._ti_z_index = self._ti_get_z_index()\n            style_args.setdefault(\"z_index\", self._ti_z_index)")
+m("C01-kitty-whole-delete-per-line", "C01", "image/kitty.py", "        fill_newline = fill + \"\\n\"\n", "        fill_newline = fill + \"\\n\" + KITTY_DELETE_CURSOR * (not blend)\n")
+m("C02-kitty-bg-workaround-blank-cells-only", "C02", "image/block.py", "                if is_on_kitty and cluster2 == bg_color:", "                if is_on_kitty and cluster1 == cluster2 == bg_color:")
+m("C08-padded-size-from-renderable", "C08", "render/_iterator.py", "        self._padded_size = self._padding.get_padded_size(self._renderable_data.size)\n\n    def set_render_args", "        self._padded_size = self._padding.get_padded_size(self._renderable.render_size)\n\n    def set_render_args")
+m("C09-cache-keyed-by-hash-of-args", "C09", "render/_iterator.py", "                    renderable_data.duration,\n                    self._render_args,\n                ):", "                    renderable_data.duration,\n                    hash(self._render_args),\n                ):",
+  more=[("                            renderable_data.duration,\n                            self._render_args,\n                        )", "                            renderable_data.duration,\n                            hash(self._render_args),\n                        )")])
+m("C15-invalidate-without-lock", "C15", "utils.py", "    def invalidate() -> None:\n        with lock:\n            cache.clear()\n", "    def invalidate() -> None:\n        cache.clear()\n")
+m("C06-animate-reads-live-size", "C06", "renderable/_renderable.py", "        render_size: Size = render_data[Renderable].size\n        height = render_size.height\n", "        render_size = self.render_size\n        height = render_size.height\n")
+m("C11-block-closes-frame-image", "C11", "image/block.py", "        if frame_img is not img:\n            self._close_image(img)\n", "        self._close_image(img)\n")
+m("C11-kitty-closes-frame-image", "C11", "image/kitty.py", "        if frame_img is not img:\n            self._close_image(img)\n", "        self._close_image(img)\n")
+m("C11-iterm2-closes-frame-image", "C11", "image/iterm2.py", "        if frame_img is not img:\n            self._close_image(img)\n", "        self._close_image(img)\n")
+m("C11-kitty-never-closes-converted-image", "C11", "image/kitty.py", "        if frame_img is not img:\n            self._close_image(img)\n", "        pass\n")
+m("C17-flow-render-skips-set-size", "C17", "widget/_urwid.py", "            if self._ti_sizing is Size.FIT:\n                image.set_size(size[0])\n            else:\n                fit_size = self._ti_image._valid_size(size[0])\n                ori_size = self._ti_image._valid_size(Size.ORIGINAL)",
+  "            if self._ti_sizing is Size.FIT:\n                if image.width != size[0]:\n                    image.set_size(size[0])\n            else:\n                fit_size = self._ti_image._valid_size(size[0])\n                ori_size = self._ti_image._valid_size(Size.ORIGINAL)")
 m("C15-swap-inverted", "C15", "utils.py", "            if _swap_win_size:\n                text_area_size = text_area_size[::-1]", "            if not _swap_win_size:\n                text_area_size = text_area_size[::-1]")
 m("C15-cache-width-only", "C15", "utils.py", "if terminal_size == tuple(_cell_size_cache[:2]):", "if terminal_size[0] == _cell_size_cache[0]:")
 m("C15-fixed-not-snapshot", "C15", "__init__.py", "            _cell_ratio = truediv(*(get_cell_size() or (1, 2)))\n        else:\n            _cell_ratio = None", "            _cell_ratio = None\n        else:\n            _cell_ratio = None")
@@ -215,7 +241,7 @@ m("C18-delete-all-not-now", "C18", "widget/_urwid.py", "            if now:\n   
 m("C18-tail-no-delete-for-non-kitty", "C18", "widget/_urwid.py", "            else:\n                self.clear_images()\n                # Multiple `clear_images()`s messes up the canvas disguise\n                # A single `clear_images()` takes care of all images anyways\n                break", "            else:\n                break")
 m("C18-tail-keeps-old-views", "C18", "widget/_urwid.py", "        self._ti_image_cviews = frozenset(image_cviews)", "        self._ti_image_cviews = frozenset(self._ti_image_cviews | image_cviews)")
 m("C18-tail-diff-reversed", "C18", "widget/_urwid.py", "for canv, *_ in self._ti_image_cviews - image_cviews:", "for canv, *_ in image_cviews - self._ti_image_cviews:")
-m("C18-tail-skips-first-kitty", "C18", "widget/_urwid.py", "            if isinstance(widget._ti_image, KittyImage):\n                kitty_widgets.append(widget)\n            else:\n                self.clear_images()", "            if isinstance(widget._ti_image, KittyImage):\n                if kitty_widgets or True and len(kitty_widgets) != 1:\n                    kitty_widgets.append(widget)\n            else:\n                self.clear_images()", expect="held")
+m("C18-tail-listed-once-rewritten", "C18", "widget/_urwid.py", "                if widget not in kitty_widgets:\n                    kitty_widgets.append(widget)\n", "                if widget in kitty_widgets:\n                    continue\n                kitty_widgets.append(widget)\n", expect="held")
 # ---- C17 content()
 m("C17-first-sgr-only", "C17", "widget/_urwid.py", 'cell[: cell.rindex(b"m") + 1]', 'cell[: cell.index(b"m") + 1]')
 m("C17-no-color-reset", "C17", "widget/_urwid.py", "                    if image_size[0] > trim_image_right > 0\n", "                    if image_size[0] > trim_image_right > 1\n")
